@@ -65,14 +65,24 @@ def run_point(job):
     return part
 
 
-def explore_lab(ctx, prop, k_quick, k_thorough, env_extra=None, need_mc=False, extra_points=(), base=None):
+def lab_env(thorough):
+    """Run-time parameters of the multi-client history exploration inside the drivers. The same for all
+    lab properties of one tier, so that they share the compile+run cache."""
+    if thorough:
+        return {'VF_C04_DEPTH': '4', 'VF_C04_CLIENTS': '3', 'VF_C04_BFS_DEPTH': '8'}
+    return {'VF_C04_DEPTH': '3', 'VF_C04_CLIENTS': '2', 'VF_C04_BFS_DEPTH': '6'}
+
+
+def explore_lab(ctx, prop, k_quick, k_thorough, need_mc=False):
     lab.check_toolchain()
     k = k_thorough if ctx.thorough else k_quick
-    pts = [pt for pt, _combo in M.points(k, base)] + list(extra_points)
+    env_extra = lab_env(ctx.thorough)
+    pts = M.lab_points(k)
     jobs = [(pt, prop, env_extra, need_mc) for pt in pts if not need_mc or pt['mc'] != 'none']
     for part in pmap(run_point, jobs):
         ctx.merge(part)
-    ctx.bounds['deviations_from_base_point'] = k
+    ctx.bounds['deviations_from_base_point_and_from_multi_client_base_point'] = k
+    ctx.bounds['plus'] = 'semantics x origin cross product (16 points)'
     ctx.bounds['models'] = len(jobs)
     ctx.trusted_base += ['mock dzn:: runtime (vf/cxx/mock)', 'mock "dzn code" header generator (vf/modelgen.py)',
                          'driver generator (vf/lab.py)', 'g++ 12 + AddressSanitizer']
